@@ -9,6 +9,7 @@ def decOp {π} (dp : Dec π) : Dec (Op π)
   | .atom "rev" => some .rev
   | .atom "clone" => some .clone
   | .atom "swap" => some .swap
+  | .atom "fork" => some .fork
   | .atom "num" => some .num
   | .atom "coords" => some .coords
   | .list [.atom "part", i] => (nat i).map .part
